@@ -14,7 +14,9 @@ structure GlueCall where
 
 def parseGlueCall (tok : String) : Option GlueCall :=
   (tok.splitOn ";").drop 1 |>.foldlM (init := ({} : GlueCall)) fun c f =>
-    if f.startsWith "j=" then (f.drop 2).toString.toNat?.map fun j => { c with j := some j }
+    -- x=1: the call's time budget runs out while the searcher works; its answer is an answer like any other
+    if f == "x=1" then some c
+    else if f.startsWith "j=" then (f.drop 2).toString.toNat?.map fun j => { c with j := some j }
     else if f.startsWith "a=" then (parseMove (f.drop 2).toString).map fun m => { c with ans := m }
     else if f.startsWith "k=" then
       match (f.drop 2).toString.splitOn ":" with
